@@ -7,6 +7,7 @@ from ..cfg import calls_in_node, INF, handler_catches_all_exceptions
 from ..framework import stores_to_name, assigned_values
 from ..contain import protecting_handler
 from . import common
+from .. import exprs as X
 
 EXPLANATION = (
     "Path rules on Action and the error-extraction helpers: every creator of a started action calls _start "
@@ -225,14 +226,17 @@ def rule_truthful(chk):
     chk.req(not stores_to_name(f, pname), "C03.truthful", "Action.finish:exception-parameter-not-rebound", chk.where(f),
             good="parameter %s is never rebound" % pname, fail="finish rebinds its exception parameter")
     status_stores = []
-    for n in cfg.live:
-        if isinstance(n.ast, ast.Assign):
-            for t in n.ast.targets:
-                if isinstance(t, ast.Subscript):
-                    ok, k = ctx.try_fold(f, t.slice)
-                    if ok and k == AS:
-                        okv, v = ctx.try_fold(f, n.ast.value)
-                        status_stores.append((n, v if okv else None))
+    from . import c02
+    _c0, wcalls0 = c02._write_call(chk, f)
+    mvar = wcalls0[0][1].args[0].id if wcalls0 and wcalls0[0][1].args and isinstance(wcalls0[0][1].args[0], ast.Name) else None
+    chk.need(mvar, "finish: the written message is not a local name")
+    for n, lay, _rebind in common.dict_events(f, cfg, mvar):
+        for l in lay:
+            if l[0] == "key":
+                ok, k = ctx.try_fold(f, l[1])
+                if ok and k == AS:
+                    okv, v = ctx.try_fold(f, l[2])
+                    status_stores.append((n, v if okv else None))
     chk.need(status_stores, "finish does not store an action status")
     for n, v in status_stores:
         guards = cfg.guards_of(n)
@@ -312,7 +316,6 @@ def rule_propagate(chk):
     run = ctx.func("_action", "Action.run")
     rc = ctx.cfg(run)
     okret = True
-    from .. import exprs as X
     for r in common.returns_of(rc):
         v = X.inline(run, r.ast.value) if r.ast.value is not None else None  # `result = f(...)` ... `return result` is the same
         if not (isinstance(v, ast.Call) and isinstance(v.func, ast.Name) and v.func.id in run.params
@@ -335,42 +338,66 @@ def rule_failfields(chk):
     from . import c02
     _c, wcalls = c02._write_call(chk, f)
     var = wcalls[0][1].args[0].id
-    # assignments to the message variable, by arm
+    # how the message dict is built on each arm: an ordered list of layers, later layers overriding earlier ones
+    def arm_of(n):
+        pol, other = None, []
+        for t, lab in cfg.guards_of(n):
+            if t.kind == "test":
+                r = _exc_none_polarity(t.exprs[0], pname)
+                if r and r[0] == "none":
+                    pol = "none" if (r[1] == 1) == (lab == "true") else "notnone"
+                elif r is not None:
+                    other.append(t)
+                elif any(t2.kind == "test" and (_exc_none_polarity(t2.exprs[0], pname) or ("", 0))[0] == "none" for t2, _l in cfg.guards_of(t)):
+                    other.append(t)  # a test nested inside the arm
+        return pol, other
+    events = common.dict_events(f, cfg, var)
     arms = {"none": [], "notnone": []}
-    for n in cfg.live:
-        if isinstance(n.ast, ast.Assign) and any(isinstance(t, ast.Name) and t.id == var for t in n.ast.targets):
-            pol = None
-            for t, lab in cfg.guards_of(n):
-                if t.kind == "test":
-                    r = _exc_none_polarity(t.exprs[0], pname)
-                    if r and r[0] == "none":
-                        pol = "none" if (r[1] == 1) == (lab == "true") else "notnone"
-            if pol:
-                arms[pol].append(n)
-    okf = len(arms["notnone"]) == 1 and isinstance(arms["notnone"][0].ast.value, ast.Call) and gf in ctx.targets(f, arms["notnone"][0].ast.value)
+    order = common.cfg_order(cfg)
+    for n, lay, rebind in sorted(events, key=lambda e: order.get(e[0], 0)):
+        pol, other = arm_of(n)
+        if pol is None:
+            continue  # common tail (timestamp, identification, level)
+        if other:
+            raise AnalysisError("Action.finish: the fields are built under a further condition at line %d (not modelled)" % n.lineno)
+        if rebind:
+            arms[pol] = []
+        arms[pol] += [(n, l) for l in lay]
+    env = X.single_assignments(f)
+    def resolved(e):
+        return X.inline(f, e, env)
+    fail_layers = arms["notnone"]
+    ext = [i for i, (n, l) in enumerate(fail_layers) if l[0] == "src" and isinstance(resolved(l[1]), ast.Call) and gf in ctx.targets(f, resolved(l[1]))]
+    okf = len(ext) == 1 and not any(l[0] == "src" for i, (n, l) in enumerate(fail_layers) if i not in ext)
     if okf:
-        c = arms["notnone"][0].ast.value
+        c = resolved(fail_layers[ext[0]][1][1])
         okf = len(c.args) == 2 and isinstance(c.args[1], ast.Name) and c.args[1].id == pname
     chk.req(okf, "C03.failfields", "Action.finish:failure-fields-from-extraction", chk.where(f),
             good="failure fields = get_fields_for_exception(logger, %s) (a fresh dict)" % pname,
             fail="on the failure arm the fields are not the result of get_fields_for_exception(..., %s)" % pname)
-    oks = len(arms["none"]) == 1 and common.is_self_attr(arms["none"][0].ast.value, "_successFields")
+    oks = len([1 for n, l in arms["none"] if l[0] == "src"]) == 1 and any(l[0] == "src" and common.is_self_attr(resolved(l[1]), "_successFields") for n, l in arms["none"])
     chk.req(oks, "C03.failfields", "Action.finish:success-fields", chk.where(f),
             good="success arm uses the success fields", fail="on the success arm the fields are not self._successFields")
-    # exception / reason stores on the failure arm
-    found = {EX: None, RE: None}
-    for n in cfg.live:
-        if isinstance(n.ast, ast.Assign):
-            for t in n.ast.targets:
-                if isinstance(t, ast.Subscript) and isinstance(t.value, ast.Name) and t.value.id == var:
-                    ok, k = ctx.try_fold(f, t.slice)
-                    if ok and k in found:
-                        found[k] = n
-    n = found[EX]
-    txt = unparse(n.ast.value) if n is not None else ""
-    if n is not None and isinstance(n.ast.value, ast.Call) and len(n.ast.value.args) == 1 and unparse(n.ast.value.args[0]) in ("%s.__class__" % pname, "type(%s)" % pname):
+    # exception / reason / status on the failure arm: the value computed by finish is the one that reaches the message
+    AS = p.fold_global(p.mod("_action"), "ACTION_STATUS_FIELD")
+    found = {EX: None, RE: None, AS: None}
+    for i, (n, l) in enumerate(fail_layers):
+        if l[0] == "key":
+            ok, k = ctx.try_fold(f, l[1])
+            if ok and k in found:
+                found[k] = (i, n, l[2])
+    if len(ext) == 1:
+        over = [k for k, v in found.items() if v is not None and v[0] < ext[0]]
+        chk.req(not over, "C03.failfields", "Action.finish:computed-fields-override-extracted", chk.where(f, fail_layers[ext[0]][0].lineno),
+                good="the exception, reason and status computed by finish are stored after the extracted fields",
+                fail="the extracted fields are laid over the computed %s: a registered extractor that returns such a key replaces the value finish computed" % sorted(over))
+    n = found[EX][1] if found[EX] else None
+    v = resolved(found[EX][2]) if found[EX] else None
+    txt = unparse(v) if v is not None else ""
+    txt = txt.replace("type(%s)" % pname, "%s.__class__" % pname)
+    if v is not None and isinstance(v, ast.Call) and len(v.args) == 1 and unparse(v.args[0]) in ("%s.__class__" % pname, "type(%s)" % pname):
         # a helper that builds '<module>.<name>' from the class it is given
-        for g in ctx.targets(f, n.ast.value):
+        for g in ctx.targets(f, v):
             if len(g.params) == 1:
                 body = " ".join(unparse(s_) for s_ in g.node.body)
                 if "%s.__module__" % g.params[0] in body and "%s.__name__" % g.params[0] in body:
@@ -378,8 +405,8 @@ def rule_failfields(chk):
     chk.req(n is not None and "%s.__class__.__module__" % pname in txt and "%s.__class__.__name__" % pname in txt,
             "C03.failfields", "Action.finish:exception-class-name", chk.where(f, n.lineno if n else None),
             good="exception = '<module>.<name>' of the exception's class", fail="exception field is %s" % (txt or "missing"))
-    n = found[RE]
-    v = n.ast.value if n is not None else None
+    n = found[RE][1] if found[RE] else None
+    v = resolved(found[RE][2]) if found[RE] else None
     chk.req(isinstance(v, ast.Call) and su in ctx.targets(f, v) and len(v.args) == 1 and isinstance(v.args[0], ast.Name) and v.args[0].id == pname,
             "C03.failfields", "Action.finish:reason-safeunicode", chk.where(f, n.lineno if n else None),
             good="reason = safeunicode(%s)" % pname, fail="reason field is %s" % (v is not None and unparse(v)))
@@ -470,12 +497,26 @@ def rule_mro(chk):
         tests = [t for t in cfg.live if t.kind == "test" and isinstance(t.exprs[0], ast.Compare) and len(t.exprs[0].ops) == 1
                  and isinstance(t.exprs[0].ops[0], ast.In) and isinstance(t.exprs[0].left, ast.Name) and t.exprs[0].left.id == lv
                  and unparse(t.exprs[0].comparators[0]) == "self.registry"]
-        if not tests:
+        found_edges = [(t, "true") for t in tests]
+        # `e = self.registry.get(<class>)` followed by a None test of e: the not-None branch is "a registered class was found"
+        getvars = {x.ast.targets[0].id for x in cfg.live if isinstance(x.ast, ast.Assign) and len(x.ast.targets) == 1 and isinstance(x.ast.targets[0], ast.Name)
+                   and isinstance(x.ast.value, ast.Call) and isinstance(x.ast.value.func, ast.Attribute) and x.ast.value.func.attr == "get"
+                   and unparse(x.ast.value.func.value) == "self.registry" and len(x.ast.value.args) == 1
+                   and isinstance(x.ast.value.args[0], ast.Name) and x.ast.value.args[0].id == lv}
+        for t in cfg.live:
+            if t.kind == "test" and not isinstance(t.ast, (ast.For, ast.While)):
+                for lab in ("true", "false"):
+                    if X.none_branch(t.exprs[0], lab, lambda e: isinstance(e, ast.Name) and e.id in getvars) == "notnone":
+                        found_edges.append((t, lab))
+                e_, lab_ = X.strip_not(t.exprs[0], "true")
+                if isinstance(e_, ast.Name) and e_.id in getvars:
+                    found_edges.append((t, lab_))  # `if e:` -- a registered extractor is a callable, hence true
+        if not found_edges:
             chk.skip("C03.mro", "get_fields_for_exception:nearest-class-wins", chk.where(g, head.lineno), "lookup is not written as a membership test: loop-exit rule not evaluated")
             continue
         quiet = common.quiet_exc_edges(ctx, g)
-        for t in tests:
-            starts = [s for s, l in t.succ if l == "true"]
+        for t, flab in found_edges:
+            starts = [s for s, l in t.succ if l == flab]
             r = cfg.reach(starts, avoid_edges=quiet)
             chk.req(head not in r, "C03.mro", "get_fields_for_exception:nearest-class-wins", chk.where(g, t.lineno),
                     good="the first registered class in MRO order decides (no path continues the loop)",
